@@ -10,7 +10,8 @@ Abstractions (recorded in the trusted base of the check):
   (`findtext` = text of the first child with that tag, `""` when the child is empty);
 * the regular-expression engine is not modelled: `re.search(f'({pattern})', name)` is a table supplied with the
   document (`no` match, length of the match, or `re.error`);
-* `ast.parse` of an `operational_status` formula is a table supplied with the document (accepted as one statement or not);
+* the acceptance of an `operational_status` formula by the `status_formula` setter (`ast.parse`, property C15) is a table
+  supplied with the document;
 * strings are sequences of printable ASCII characters and ASCII white space (Python `int()`, `float()`, `str.strip`,
   `str.lower`, `str.upper` are re-implemented for that alphabet only).
 -/
@@ -43,6 +44,9 @@ def syncNames : List String := ["STRICT", "LIST", "TIMEOUT", "CORE", "USER"]
 def statNames : List String := ["OFF", "HOST", "PROCESS", "ALL"]
 /-- `SupvisorsOptions.SYNCHRO_DEFAULT_OPTIONS` as written in the source -/
 def syncDefault : List String := ["STRICT", "TIMEOUT", "CORE"]
+/-- is the default handed to `_get_value` for `synchro_options` the class attribute itself (a list object shared by every
+    instance that falls back to it)?  `false` since the repair b925545: a copy `list(self.SYNCHRO_DEFAULT_OPTIONS)` is passed -/
+def syncDefaultShared : Bool := false
 /-- `SupvisorsOptions.RESERVED_MULTICAST_ADDRESSES` -/
 def reservedMulticast : List String := ["224.0.0.0", "232.0.0.0", "233.0.0.0", "239.0.0.0"]
 /-- inclusive bounds written in the converters and loaders -/
@@ -256,7 +260,7 @@ structure Doc where
   apps : List AppElt := []
   /-- regular-expression results supplied by the harness: (pattern, name, result); absent = no match -/
   matchTable : List (String × String × MatchRes) := []
-  /-- formulas that `ast.parse` accepts as exactly one statement (supplied by the harness) -/
+  /-- formulas accepted by the `status_formula` setter (`ast.parse` + shape test; supplied by the harness from the real setter) -/
   formulasOk : List String := []
   deriving Repr, Inhabited
 
@@ -492,7 +496,7 @@ def laSfs (e : Elt) (r : AppRules) : AppRules :=
   match parseEnum sfsNames (e.text "starting_failure_strategy") with | some v => { r with sfs := v } | none => r
 def laRfs (e : Elt) (r : AppRules) : AppRules :=
   match parseEnum rfsNames (e.text "running_failure_strategy") with | some v => { r with rfs := v } | none => r
-/-- `load_status`: kept when `ast.parse` yields exactly one statement -/
+/-- `load_status`: kept when the `status_formula` setter accepts the text -/
 def laStatus (d : Doc) (e : Elt) (r : AppRules) : AppRules :=
   match e.text "operational_status" with
   | some v => if d.formulasOk.contains v then { r with statusFormula := some v } else r
@@ -685,7 +689,8 @@ def Group.resolve (m : Mapper) (g : Group) : Except Err Group :=
 
 /-! ## 5. `[supvisors]` options -/
 
-/-- a statistics period as `to_period` returns it -/
+/-- a statistics period as `to_period` returns it (`nan` is never produced by the model since the repair 7f9aea6; the
+    constructor is kept for the judge, which must be able to read and reject it in an implementation observation) -/
 inductive Period where
   | nan
   | val (n d : Nat)
@@ -732,11 +737,11 @@ def pySort {α} (lt : α → α → Bool) : List α → List α
       let n := 2 + runAsc lt y t
       binInsertAll lt ((x :: y :: t).take n) ((x :: y :: t).drop n)
 
-/-- `SupvisorsOptions.to_period` / one item of `to_periods`; `none` = `ValueError` -/
+/-- `SupvisorsOptions.to_period` / one item of `to_periods`; `none` = `ValueError`.
+    The test is `not (1.0 <= period <= 3600.0)`: `nan` is refused like any value outside the range. -/
 def toPeriod (s : String) : Option Period :=
   match pyFloat s with
-  | some .nan => some .nan                      -- `1.0 > nan` and `nan > 3600.0` are both false
-  | some (.mid n d) => if n < periodBounds.1 * d ∨ n > periodBounds.2 * d then none else some (.val n d)
+  | some (.mid n d) => if periodBounds.1 * d ≤ n ∧ n ≤ periodBounds.2 * d then some (.val n d) else none
   | _ => none
 
 /-- every conversion succeeds, or the first failure (`ValueError`) propagates -/
@@ -870,7 +875,7 @@ def convertOptions (dfltSync : List String) (cfg : Config) : Options :=
     tailLimit := getValue cfg "tail_limit" 1024 byteSize
     tailfLimit := getValue cfg "tailf_limit" 1024 byteSize }
 
-/-- does `self.synchro_options` alias the class attribute? (option absent, or refused by the converter) -/
+/-- does `self.synchro_options` fall back to the default? (option absent, or refused by the converter) -/
 def usesDefaultSync (cfg : Config) : Bool :=
   match lookupStr cfg "synchro_options" with
   | none => true
@@ -889,11 +894,12 @@ def checkOptions (o : Options) : Except Err Options :=
     .ok { o with synchroOptions := s, failureStrategy := "CONTINUE" }
   else .ok { o with synchroOptions := s }
 
-/-- `SupvisorsOptions(**cfg)`: the options or the `ValueError`, and the content of `SYNCHRO_DEFAULT_OPTIONS` afterwards
-    (the removals of `check_options` are made in place on the shared list when the instance aliases it) -/
+/-- `SupvisorsOptions(**cfg)`: the options or the `ValueError`, and the content of the class attribute
+    `SYNCHRO_DEFAULT_OPTIONS` afterwards: the removals of `check_options` would be made in place on it if the instance
+    aliased it (`syncDefaultShared`); with a copy the attribute is left alone -/
 def buildOptions (dfltSync : List String) (cfg : Config) : Except Err Options × List String :=
   let o := convertOptions dfltSync cfg
-  let dflt' := if usesDefaultSync cfg then synchroCleanup o else dfltSync
+  let dflt' := if syncDefaultShared && usesDefaultSync cfg then synchroCleanup o else dfltSync
   (checkOptions o, dflt')
 
 end Supv.Rules
